@@ -697,19 +697,17 @@ def ensure_ast():
         raise RuntimeError("Gen/KernelsAst.vo does not build:\n" + log[-2000:])
 
 
-def main(argv=None):
-    ap = argparse.ArgumentParser()
-    ap.add_argument("--kernel", action="append")
-    ap.add_argument("--n", type=int, default=200)
-    ap.add_argument("--seed", default=os.environ.get("VERIF_SEED", "0"))
-    ap.add_argument("--keep", action="store_true", help="print the scratch directory and keep it")
-    a = ap.parse_args(argv)
+def run(names=None, n=200, seed="0"):
+    """Run the tie for the kernels `names` (default: all).  -> dict
+    {"kernels": {name: {"cases", "mismatches", "ub", "nonzero", "first": (index, what, term) | None,
+                        "status": str (only when skipped)}},
+     "failed_shards": [(name, shard, log)], "not_executable": {name: str}, "bad": int, "wall_s": float}"""
     t0 = time.time()
     ensure_ast()
     rep = dict(ctrans.report(cm.REPO))
     lib = ctypes.CDLL(str(cm.build_kernel_lib()))
     sigs = signatures(cm.REPO)
-    names = a.kernel or list(KERNELS)
+    names = list(names) if names else list(KERNELS)
     # silence the kernels' progress messages
     sys.stdout.flush()
     devnull = os.open(os.devnull, os.O_WRONLY)
@@ -727,9 +725,9 @@ def main(argv=None):
                 info[name] = {"status": f"untranslated: {rep.get(name)}"}
                 continue
             gen, flags = KERNELS[name]
-            rng = random.Random(f"tie:{name}:{a.seed}")
+            rng = random.Random(f"tie:{name}:{seed}")
             terms, intact_flags, nz = [], [], 0
-            for _ in range(a.n):
+            for _ in range(n):
                 args = gen(rng)
                 ret, outs, intact = call_kernel(lib, name, sigs[name], args)
                 terms.append(case_term(name, sigs[name], args, ret, outs))
@@ -737,8 +735,8 @@ def main(argv=None):
                 nz += 1 if ret != 0 else 0
             info[name] = {"flags": flags, "intact": intact_flags, "terms": terms, "nonzero": nz,
                           "verdicts": [None] * len(terms)}
-            for si, n, p in run_shards(name, terms):
-                jobs.append((name, si, n, p))
+            for si, k, p in run_shards(name, terms):
+                jobs.append((name, si, k, p))
         libc = ctypes.CDLL(None)
         libc.fflush(None)
     finally:
@@ -746,24 +744,25 @@ def main(argv=None):
         os.close(devnull)
 
     def one(job):
-        name, si, n, p = job
+        name, si, k, p = job
         rc, out = cm.coqc_file(p, timeout=900)
         return job, rc, out
 
     failed = []
     with ThreadPoolExecutor(max_workers=cm.NCPU) as ex:
-        for (name, si, n, p), rc, out in ex.map(one, jobs):
-            vs = parse_verdicts(out, n) if rc == 0 else None
+        for (name, si, k, p), rc, out in ex.map(one, jobs):
+            vs = parse_verdicts(out, k) if rc == 0 else None
             if vs is None:
                 failed.append((name, si, out[-1500:]))
                 continue
-            info[name]["verdicts"][si: si + n] = vs
-    bad_total = 0
+            info[name]["verdicts"][si: si + k] = vs
+    res = {"kernels": {}, "failed_shards": failed, "not_executable": {}, "bad": 0}
     for name in names:
         inf = info[name]
         if "status" in inf:
-            print(f"{name} cases=0 mismatches=0 SKIPPED ({inf['status']})")
-            bad_total += 1
+            res["kernels"][name] = {"cases": 0, "mismatches": 0, "ub": 0, "nonzero": 0, "first": None,
+                                    "status": inf["status"]}
+            res["bad"] += 1
             continue
         mism, ub, first = 0, 0, None
         for i, (v, intact) in enumerate(zip(inf["verdicts"], inf["intact"])):
@@ -774,28 +773,83 @@ def main(argv=None):
                 continue
             mism += 1
             if first is None:
-                first = (i, v, intact)
-        bad_total += mism
-        line = f"{name} cases={len(inf['terms'])} mismatches={mism} ub={ub} nonzero_returns={inf['nonzero']}"
-        if first is not None:
-            i, v, intact = first
-            what = {None: "case file failed", 1: "different result", 2: "interpreter error", 0: "agree"}[v]
-            line += f"  first: #{i} ({what}{'' if intact else ', compiled code wrote outside its buffers'})"
-        print(line)
-        if first is not None:
-            print("    " + inf["terms"][first[0]][:1500])
-    for name, si, log in failed[:3]:
-        print(f"-- shard {name}/{si} failed:\n{log}")
+                what = {None: "case file failed", 1: "different result", 2: "interpreter error",
+                        0: "agree"}[v]
+                if not intact:
+                    what += ", compiled code wrote outside its buffers"
+                first = (i, what, inf["terms"][i])
+        res["bad"] += mism
+        res["kernels"][name] = {"cases": len(inf["terms"]), "mismatches": mism, "ub": ub,
+                                "nonzero": inf["nonzero"], "first": first}
     for name in NOT_EXECUTABLE:
-        if a.kernel is None and name in rep:
-            print(f"{name} cases=0 not-executable-in-F64 "
-                  f"({'translated' if rep[name] is None else 'untranslated: ' + rep[name]})")
-    print(f"total: {sum(len(info[n].get('terms', [])) for n in names)} cases, "
-          f"{bad_total} mismatches, {time.time() - t0:.1f} s")
+        if name in rep:
+            res["not_executable"][name] = "translated" if rep[name] is None else "untranslated: " + rep[name]
+    res["wall_s"] = round(time.time() - t0, 1)
+    return res
+
+
+def check(ctx, kernels, n=None):
+    """Obligation of a property check: the MiniC translation of `kernels` (regenerated from the
+    tree under test) executes, in binary64 inside Coq, exactly like the compiled kernels on
+    `n` generated argument lists each.  A disagreement is reported (the translator, the
+    interpreter or the refinement hypotheses no longer describe the code)."""
+    n = n or (200 if ctx.thorough else 40)
+    res = run(kernels, n=n, seed=str(ctx.seed))
+    summary = {}
+    for name, k in res["kernels"].items():
+        ok = k["mismatches"] == 0 and "status" not in k
+        ctx.obligation(f"MiniC tie {name}: interpreter = compiled kernel on {k['cases']} cases", ok)
+        summary[name] = {x: k[x] for x in ("cases", "mismatches", "ub", "nonzero")}
+        if "status" in k:
+            summary[name]["status"] = k["status"]
+        if not ok:
+            first = k["first"]
+            ctx.failure(f"{ctx.pid}/minic-tie/{name}",
+                        {"broken": f"MiniC translation of {name} vs compiled kernel",
+                         "status": k.get("status"), "mismatches": k["mismatches"],
+                         "first": None if first is None else {"index": first[0], "what": first[1],
+                                                              "case": first[2][:4000]}},
+                        f"the MiniC translation of {name} and the compiled kernel disagree "
+                        f"({k.get('status') or k['mismatches']})", nofail=True)
+    for name, si, log in res["failed_shards"]:
+        ctx.obligation(f"MiniC tie shard {name}/{si} compiled", False)
+        ctx.failure(f"{ctx.pid}/minic-tie-shard", {"broken": f"tie shard {name}/{si}", "log": log},
+                    "a MiniC tie case file failed to compile", nofail=True)
+    ctx.notes["minic_tie"] = summary
+    return res["bad"] == 0 and not res["failed_shards"]
+
+
+def main(argv=None):
+    ap = argparse.ArgumentParser()
+    ap.add_argument("--kernel", action="append")
+    ap.add_argument("--n", type=int, default=200)
+    ap.add_argument("--seed", default=os.environ.get("VERIF_SEED", "0"))
+    ap.add_argument("--keep", action="store_true", help="print the scratch directory and keep it")
+    a = ap.parse_args(argv)
+    res = run(a.kernel, n=a.n, seed=a.seed)
+    total = 0
+    for name, k in res["kernels"].items():
+        if "status" in k:
+            print(f"{name} cases=0 mismatches=0 SKIPPED ({k['status']})")
+            continue
+        total += k["cases"]
+        line = (f"{name} cases={k['cases']} mismatches={k['mismatches']} ub={k['ub']} "
+                f"nonzero_returns={k['nonzero']}")
+        if k["first"] is not None:
+            line += f"  first: #{k['first'][0]} ({k['first'][1]})"
+        print(line)
+        if k["first"] is not None:
+            print("    " + k["first"][2][:1500])
+    for name, si, log in res["failed_shards"][:3]:
+        print(f"-- shard {name}/{si} failed:\n{log}")
+    if a.kernel is None:
+        for name, st in res["not_executable"].items():
+            print(f"{name} cases=0 not-executable-in-F64 ({st})")
+    print(f"total: {total} cases, {res['bad']} mismatches, {res['wall_s']} s")
     if a.keep:
         cm._SCRATCH = None
         print("scratch kept")
-    return 1 if bad_total else 0
+    return 1 if (res["bad"] or res["failed_shards"]) else 0
 
 
 if __name__ == "__main__":
